@@ -191,7 +191,7 @@ def predicate (n : Nat) (pi val l r : Array Float) (s t : Float) (ps pt pst : Ar
         if !((idx p (i * n + j) - idx pi j).abs ≤ bound) then bad := flag bad "limit-stationary"
   return bad
 
-def handle : Handler := fun op args impl =>
+def handleCore : Handler := fun op args impl =>
   match op, args with
   | "c18", [model, params, s, t] => do
     let p ← parseFloats? params
@@ -268,5 +268,12 @@ def handle : Handler := fun op args impl =>
       | cs => "fail:" ++ "+".intercalate cs
     return ⟨modelStr, verdict⟩
   | _, _ => none
+
+/-- `c18re <model> <params0> <params> <s> <t>`: the model value (and a live `Pij`) served `params0` before it was
+initialised again with `params`; what it answers now must be exactly what a fresh model of `params` answers. -/
+def handle : Handler := fun op args impl =>
+  match op, args with
+  | "c18re", [model, _, params, s, t] => handleCore "c18" [model, params, s, t] impl
+  | _, _ => handleCore op args impl
 
 end Gv.Oracle.Models
